@@ -1,6 +1,6 @@
 /-
   C19 — intersection and merge cost models count what the hardware idiom would do.
-  Property theorems only; helper lemmas live in FtProofs/Lemmas/{Intersect,Compute}.lean.
+  Property theorems only; helper lemmas live in FtProofs/Lemmas/{Intersect,Compute,MergeInf,MergeEmit}.lean.
 
   Vocabulary (FtModel/Intersect.lean): a `FiberIn` is one intersected fiber pair as the loop
   nest presents it (iteration stamps `oi` and coordinates `pre` of the outer loop ranks, the
@@ -9,6 +9,8 @@
   consumed after every group of consecutive fibers (header with the first); `tfTotal` /
   `saTotal` / `lfTotal` feed them to a fresh Two-Finger / Skip-Ahead / Leader-Follower
   intersector (`none` = the call raises) and read `getNumIntersects()`.
+  `ascPre g`: the outer-loop points of the fibers of one call ascend (Python's list order) —
+  what every loop nest produces, and the only way a trace can tell two fibers apart.
 -/
 import FtProofs.Lemmas.Intersect
 import FtProofs.Lemmas.Compute
@@ -21,33 +23,27 @@ namespace Ft
 
 /-! ## Two-finger and skip-ahead -/
 
-/-- **Two-finger, any batching (partial).**  Whatever the grouping of the fibers into
-    `addTraces` calls, the total is the number of comparison steps of a two-finger merge of
-    each fiber's two coordinate lists (before either is exhausted), summed over the fibers —
-    PROVIDED that inside every call the outer-loop points are pairwise distinct and every
-    fiber that is followed by another one in the same call is `clean` (not exactly one
-    operand empty, and its merge does not end on a match that exhausts exactly one operand).
-    Without the last proviso the statement is false for the code as it is
-    (`oneShot_counterexample`). -/
-theorem twoFinger_batched_partial (n : Nat) (groups : List (List FiberIn))
+/-- **Two-finger, any batching.**  Whatever the grouping of the fibers into `addTraces`
+    calls (fiber by fiber, one shot, mixed), the total is the number of comparison steps of a
+    two-finger merge of each fiber's two coordinate lists (before either is exhausted), summed
+    over the fibers: no comparison spans two fibers.  Operands may be empty, disjoint,
+    interleaved, identical; inside one call the outer-loop points ascend. -/
+theorem twoFinger_batched (n : Nat) (groups : List (List FiberIn))
     (hshape : ∀ g ∈ groups, ∀ f ∈ g, f.oi.length + 1 = n ∧ f.pre.length + 1 = n)
-    (hdist : ∀ g ∈ groups, distinctPre g = true)
-    (hclean : ∀ g ∈ groups, groupClean g = true) :
+    (hasc : ∀ g ∈ groups, ascPre g = true) :
     tfTotal (batchesOf n groups) = some (tfSpecAll groups.flatten : Int) :=
-  tfTotal_batches n groups (fun g hg => ⟨hshape g hg, hdist g hg, hclean g hg⟩)
+  tfTotal_batches n groups (fun g hg => ⟨hshape g hg, hasc g hg⟩)
 
-/-- **Skip-ahead, any batching (partial)**: maximal same-side runs plus matches of every
-    fiber's merge, under the same provisos. -/
-theorem skipAhead_batched_partial (n : Nat) (groups : List (List FiberIn))
+/-- **Skip-ahead, any batching**: maximal same-side runs plus matches of every fiber's
+    merge. -/
+theorem skipAhead_batched (n : Nat) (groups : List (List FiberIn))
     (hshape : ∀ g ∈ groups, ∀ f ∈ g, f.oi.length + 1 = n ∧ f.pre.length + 1 = n)
-    (hdist : ∀ g ∈ groups, distinctPre g = true)
-    (hclean : ∀ g ∈ groups, groupClean g = true) :
+    (hasc : ∀ g ∈ groups, ascPre g = true) :
     saTotal (batchesOf n groups) = some (saSpecAll groups.flatten : Int) :=
-  saTotal_batches n groups (fun g hg => ⟨hshape g hg, hdist g hg, hclean g hg⟩)
+  saTotal_batches n groups (fun g hg => ⟨hshape g hg, hasc g hg⟩)
 
-/-- **Two-finger, fed fiber by fiber** (no proviso: empty operands, disjoint, interleaved,
-    identical lists, any number of fibers, equal or different outer points): the total is
-    the number of merge comparison steps. -/
+/-- **Two-finger, fed fiber by fiber** (no condition on the outer points: they may even be
+    equal, as when the same pair is intersected repeatedly without an outer rank). -/
 theorem twoFinger_spec (n : Nat) (fs : List FiberIn)
     (hshape : ∀ f ∈ fs, f.oi.length + 1 = n ∧ f.pre.length + 1 = n) :
     tfTotal (batchesOf n (fs.map (fun f => [f]))) = some (tfSpecAll fs : Int) := by
@@ -78,10 +74,10 @@ theorem leaderFollower_rows (b : List TRow) (r : List (List TRow)) :
 
 /-! ## Batching -/
 
-/-- **Batching is irrelevant (partial)**: two groupings of the same fibers that both satisfy
-    the provisos of `twoFinger_batched_partial` give the same totals; for the
-    leader-follower model any two groupings do. -/
-theorem batching_irrelevant_partial (n : Nat) (g1 g2 : List (List FiberIn))
+/-- **Batching is irrelevant**: any two groupings of the same fibers into calls give the
+    same totals for all three models (`GroupsOk n g`: every fiber has rows of `n` loop ranks
+    and inside each call the outer points ascend). -/
+theorem batching_irrelevant (n : Nat) (g1 g2 : List (List FiberIn))
     (hsame : g1.flatten = g2.flatten)
     (h1 : GroupsOk n g1) (h2 : GroupsOk n g2) :
     tfTotal (batchesOf n g1) = tfTotal (batchesOf n g2) ∧
@@ -92,78 +88,82 @@ theorem batching_irrelevant_partial (n : Nat) (g1 g2 : List (List FiberIn))
   · rw [saTotal_batches n g1 h1, saTotal_batches n g2 h2, hsame]
   · rw [lfTotal_leader, lfTotal_leader, hsame]
 
-/-! ## The unrestricted claim fails for the code as it is (DESIGN §7 #14) -/
+/-- in particular one shot = fiber by fiber -/
+theorem oneShot_eq_fiberByFiber (n : Nat) (fs : List FiberIn)
+    (hshape : ∀ f ∈ fs, f.oi.length + 1 = n ∧ f.pre.length + 1 = n) (hasc : ascPre fs = true) :
+    tfTotal (batchesOf n [fs]) = tfTotal (batchesOf n (fs.map (fun f => [f]))) ∧
+    saTotal (batchesOf n [fs]) = saTotal (batchesOf n (fs.map (fun f => [f]))) := by
+  have h1 : GroupsOk n [fs] := by
+    intro g hg
+    rw [List.mem_singleton.1 hg]
+    exact ⟨hshape, hasc⟩
+  have h2 := singletons_ok n fs hshape
+  have hs : [fs].flatten = (fs.map (fun f => [f])).flatten := by
+    rw [flatten_singletons]; simp
+  exact ⟨(batching_irrelevant n _ _ hs h1 h2).1, (batching_irrelevant n _ _ hs h1 h2).2.1⟩
+
+/-! ## Non-vacuity, and the former counterexamples (DESIGN §7 #14, repaired) -/
 
 /-- two fibers under one outer rank (points 0 and 1), each `a = [1]`, `b = [1, 2]`: the merge of
-    each ends with a match that exhausts `a` only -/
+    each ends with a match that exhausts `a` only, leaving a lone trailing row of `b` -/
 def wit : List FiberIn := [⟨[0], [0], [1], [1, 2]⟩, ⟨[1], [1], [1], [1, 2]⟩]
 
-/-- Fed in one shot both models report 3, fed fiber by fiber they report 2 = the merge
-    steps: the totals DO depend on the batching, and no comparison should span two fibers. -/
-theorem oneShot_counterexample :
-    (∀ f ∈ wit, f.oi.length + 1 = 2 ∧ f.pre.length + 1 = 2) ∧ distinctPre wit = true ∧
+/-- fed in one shot both models report 2 = the merge steps (before the repair: 3) -/
+example :
+    (∀ f ∈ wit, f.oi.length + 1 = 2 ∧ f.pre.length + 1 = 2) ∧ ascPre wit = true ∧
     tfSpecAll wit = 2 ∧ saSpecAll wit = 2 ∧
-    tfTotal (batchesOf 2 (wit.map (fun f => [f]))) = some 2 ∧
-    saTotal (batchesOf 2 (wit.map (fun f => [f]))) = some 2 ∧
-    tfTotal (batchesOf 2 [wit]) = some 3 ∧
-    saTotal (batchesOf 2 [wit]) = some 3 := by
-  refine ⟨by simp [wit], by simp [wit, distinctPre], ?_, ?_, ?_, ?_, ?_, ?_⟩
+    tfTotal (batchesOf 2 [wit]) = some 2 ∧
+    saTotal (batchesOf 2 [wit]) = some 2 := by
+  refine ⟨by simp [wit], by simp [wit, ascPre, c19_lexLt], ?_, ?_, ?_, ?_⟩
   · simp [wit, tfSpecAll, tfSpec, mergeLabels]
   · simp [wit, saSpecAll, saSpec, mergeLabels, sameSideRuns]
   · simp [wit, tfTotal, batchesOf, groupRows, FiberIn.rows, andUses, mkRows, feed2, tfAdd, startPts,
       TRow.point, TRow.len, tfLoop, c19_lexLt, endOf, List.zipIdx]
   · simp [wit, saTotal, batchesOf, groupRows, FiberIn.rows, andUses, mkRows, feed2, saAdd, startPts,
       TRow.point, TRow.len, saLoop, c19_lexLt, endOf, fiberOf, List.zipIdx]
-  · simp [wit, tfTotal, batchesOf, groupRows, FiberIn.rows, andUses, mkRows, feed2, tfAdd, startPts,
-      TRow.point, TRow.len, tfLoop, c19_lexLt, endOf, List.zipIdx]
-  · simp [wit, saTotal, batchesOf, groupRows, FiberIn.rows, andUses, mkRows, feed2, saAdd, startPts,
-      TRow.point, TRow.len, saLoop, c19_lexLt, endOf, fiberOf, List.zipIdx]
 
-/-- a fiber with exactly one empty operand in front of another one: the call raises -/
-theorem oneShot_assertion_counterexample :
-    tfTotal (batchesOf 2 [[⟨[0], [0], [], [2]⟩, ⟨[1], [2], [1], [1]⟩]]) = none := by
+/-- a fiber with exactly one empty operand in front of another one (before the repair: the
+    call raised) -/
+example : tfTotal (batchesOf 2 [[⟨[0], [0], [], [2]⟩, ⟨[1], [2], [1], [1]⟩]]) = some 1 := by
   simp [tfTotal, batchesOf, groupRows, FiberIn.rows, andUses, mkRows, feed2, tfAdd, startPts,
-    TRow.point, TRow.len, List.zipIdx]
+    TRow.point, TRow.len, tfLoop, c19_lexLt, endOf, List.zipIdx]
 
-/-! ## Non-vacuity: the hypotheses hold for non-trivial values -/
-
-/-- a mixed batching: a clean fiber (ends on a match exhausting both operands, with a run of
-    two on the left) followed in the same call by an unclean last one, then a call of its own -/
+/-- a mixed batching: a fiber with a run of two on the left, one ending on a match with a
+    trailing row, one with an empty operand -/
 def exGroups : List (List FiberIn) :=
-  [[⟨[0], [0], [1, 2, 5], [3, 5]⟩, ⟨[1], [4], [1], [1, 2]⟩], [⟨[2], [6], [], [7]⟩]]
+  [[⟨[0], [0], [1, 2, 5], [3, 5]⟩, ⟨[1], [4], [1], [1, 2]⟩, ⟨[2], [6], [], [7]⟩], [⟨[3], [8], [4], [4]⟩]]
 
 example : (∀ g ∈ exGroups, ∀ f ∈ g, f.oi.length + 1 = 2 ∧ f.pre.length + 1 = 2) ∧
-    (∀ g ∈ exGroups, distinctPre g = true) ∧ (∀ g ∈ exGroups, groupClean g = true) ∧
-    tfSpecAll exGroups.flatten = 5 ∧ saSpecAll exGroups.flatten = 4 := by
-  refine ⟨by simp [exGroups], by simp [exGroups, distinctPre], ?_, ?_, ?_⟩
-  · simp [exGroups, groupClean, clean, cleanEnd]
+    (∀ g ∈ exGroups, ascPre g = true) ∧
+    tfSpecAll exGroups.flatten = 6 ∧ saSpecAll exGroups.flatten = 5 ∧ lfSpecAll exGroups.flatten = 5 := by
+  refine ⟨by simp [exGroups], by simp [exGroups, ascPre, c19_lexLt], ?_, ?_, ?_⟩
   · simp [exGroups, tfSpecAll, tfSpec, mergeLabels]
   · simp [exGroups, saSpecAll, saSpec, mergeLabels, sameSideRuns]
-
-example : lfSpecAll exGroups.flatten = 4 := by simp [exGroups, lfSpecAll]
+  · simp [exGroups, lfSpecAll]
 
 example : GroupsOk 2 exGroups ∧ GroupsOk 2 (exGroups.flatten.map (fun f => [f])) := by
   refine ⟨?_, singletons_ok 2 _ (by simp [exGroups])⟩
   intro g hg
   simp only [exGroups, List.mem_cons, List.not_mem_nil, or_false] at hg
   rcases hg with rfl | rfl
-  · exact ⟨by simp [ShapeOk], by simp [distinctPre], by simp [groupClean, clean, cleanEnd]⟩
-  · exact ⟨by simp [ShapeOk], by simp [distinctPre], by simp [groupClean]⟩
+  · exact ⟨by simp [ShapeOk], by simp [ascPre, c19_lexLt]⟩
+  · exact ⟨by simp [ShapeOk], by simp [ascPre]⟩
 
 /-! ## The swap-count model (`Compute.numSwaps`)
 
-`numSwapsTree dflt e radix lat depth t` is `_numSwapsTree(root, depth, radix, next_latency)` on
-a tree with `e + 2 + depth` ranks; `mergeNodes dflt e depth t` lists, for every fiber of level
-`depth` that the walk reaches, the coordinate lists that are merged there; `RadixOk radix`:
-the radix is `float("inf")` or at least 2 (radix 1 does not terminate in Python). -/
+`numSwapsTree e radix lat depth t` is `_numSwapsTree(root, depth, radix, next_latency)` on a
+tree with `e + 2 + depth` ranks (any payload type: values are never read); `mergeNodes e depth t`
+lists, for every fiber of level `depth`, the coordinate lists that are merged there (the
+stored coordinates of every sub-fiber holding at least one); `RadixOk radix`: the radix is
+`float("inf")` or at least 2 (radix 1 does not terminate in Python). -/
 
-/-- **Finite latency**: at every reached fiber of the target level, each merge round over
-    `k > 1` lists holding `n` coordinates in total is charged `lat · (k + n)` — the latency per
-    list and per element — and leaves ⌈k / min(radix, k)⌉ lists (`roundsCost`). -/
-theorem swaps_finite (dflt : Int) (e : Nat) (radix : Option Nat) (hr : RadixOk radix) (lat depth : Nat)
-    (t : Tree Int Int (e + 2 + depth)) :
-    numSwapsTree dflt e radix (Lat.fin lat) depth t =
-      ((mergeNodes dflt e depth t).map (fun lists => roundsCost radix lat (total lists) lists.length)).sum := by
+/-- **Finite latency**: at every fiber of the target level, each merge round over `k > 1`
+    lists holding `n` coordinates in total is charged `lat · (k + n)` — the latency per list
+    and per element — and leaves ⌈k / min(radix, k)⌉ lists (`roundsCost`). -/
+theorem swaps_finite {ν : Type} (e : Nat) (radix : Option Nat) (hr : RadixOk radix) (lat depth : Nat)
+    (t : Tree Int ν (e + 2 + depth)) :
+    numSwapsTree e radix (Lat.fin lat) depth t =
+      ((mergeNodes e depth t).map (fun lists => roundsCost radix lat (total lists) lists.length)).sum := by
   rw [numSwapsTree_eq_nodes]
   congr 1
   apply List.map_congr_left
@@ -178,21 +178,21 @@ theorem roundsCost_round (radix : Option Nat) (lat n k : Nat) :
       else 0 :=
   roundsCost_eq radix lat n k
 
-/-- **Unbounded latency ("N")**: at every reached fiber of the target level, each round merges
-    the lists in groups of `min(radix, k)` through a sorted buffer of list heads; bringing a
+/-- **Unbounded latency ("N")**: at every fiber of the target level, each round merges the
+    lists in groups of `min(radix, k)` through a sorted buffer of list heads; bringing a
     coordinate into the buffer is charged one comparison per buffered head that is emitted
     before it (smaller coordinate, or equal coordinate and larger list index) plus one
     (`insertMerge`, stated on the coordinates themselves — the implementation works on negated
     coordinates, stacks and `bisect_right` positions). -/
-theorem swaps_infinite (dflt : Int) (e : Nat) (radix : Option Nat) (hr : RadixOk radix) (depth : Nat)
+theorem swaps_infinite (e : Nat) (radix : Option Nat) (hr : RadixOk radix) (depth : Nat)
     (t : Tree Int Int (e + 2 + depth)) (hwf : wfB (e + 2 + depth) t = true) :
-    numSwapsTree dflt e radix Lat.inf depth t = ((mergeNodes dflt e depth t).map (roundsInf radix)).sum := by
+    numSwapsTree e radix Lat.inf depth t = ((mergeNodes e depth t).map (roundsInf radix)).sum := by
   have hwf := (c19_wfB_iff _ t).1 hwf
   rw [numSwapsTree_eq_nodes]
   congr 1
   apply List.map_congr_left
   intro lists hl
-  rw [swapsAt_inf radix hr lists, map_pySort_of_sorted lists (mergeNodes_sorted dflt e depth t hwf lists hl)]
+  rw [swapsAt_inf radix hr lists, map_pySort_of_sorted lists (mergeNodes_sorted e depth t hwf lists hl)]
 
 /-- the rounds: `roundsInf` unfolded once -/
 theorem roundsInf_round (radix : Option Nat) (lists : List (List Int)) :
@@ -209,65 +209,54 @@ theorem insertMerge_leaves_sorted_union (lists : List (List Int)) :
     (insertMerge lists).2 = pySort lists.flatten :=
   insertMerge_sorted lists
 
-/-- **Payload independence (partial)**: the count is a function of the coordinate skeleton
-    alone — PROVIDED every element the walk iterates over is empty exactly when its skeleton
-    shows it (`presentAgrees`; it fails for a sub-fiber that stores only explicit defaults,
-    and then so does the claim: `swaps_payload_counterexample`). -/
-theorem swaps_skeleton_partial (dflt : Int) (e : Nat) (radix : Option Nat) (lat : Lat) (depth : Nat)
-    (t : Tree Int Int (e + 2 + depth)) (h : presentAgrees dflt e depth t = true) :
-    numSwapsTree dflt e radix lat depth t = swapsSpec e radix lat depth (skel (e + 2 + depth) t) :=
-  numSwapsTree_skel dflt e radix lat depth t h
+/-- **Payload independence**: the count is a function of the coordinate skeleton alone
+    (`skel` erases every payload value; `swapsSpec` is computed from the skeleton). -/
+theorem swaps_skeleton {ν : Type} (e : Nat) (radix : Option Nat) (lat : Lat) (depth : Nat)
+    (t : Tree Int ν (e + 2 + depth)) :
+    numSwapsTree e radix lat depth t = swapsSpec e radix lat depth (skel (e + 2 + depth) t) :=
+  numSwapsTree_skel e radix lat depth t
 
-theorem swaps_payload_independent_partial (dflt dflt' : Int) (e : Nat) (radix : Option Nat) (lat : Lat)
-    (depth : Nat) (t t' : Tree Int Int (e + 2 + depth))
-    (hs : skel (e + 2 + depth) t = skel (e + 2 + depth) t')
-    (h : presentAgrees dflt e depth t = true) (h' : presentAgrees dflt' e depth t' = true) :
-    numSwapsTree dflt e radix lat depth t = numSwapsTree dflt' e radix lat depth t' := by
-  rw [numSwapsTree_skel dflt e radix lat depth t h, numSwapsTree_skel dflt' e radix lat depth t' h', hs]
-
-/-- in particular for trees without explicit defaults: same coordinates, any values -/
-theorem swaps_payload_independent_noDefault (dflt : Int) (e : Nat) (radix : Option Nat) (lat : Lat)
-    (depth : Nat) (t t' : Tree Int Int (e + 2 + depth))
-    (hs : skel (e + 2 + depth) t = skel (e + 2 + depth) t')
-    (h : noDefaultLeaf dflt (e + 2 + depth) t = true) (h' : noDefaultLeaf dflt (e + 2 + depth) t' = true) :
-    numSwapsTree dflt e radix lat depth t = numSwapsTree dflt e radix lat depth t' :=
-  swaps_payload_independent_partial dflt dflt e radix lat depth t t' hs
-    (presentAgrees_of_noDefault dflt e depth t h) (presentAgrees_of_noDefault dflt e depth t' h')
+/-- two trees with the same coordinates get the same count, whatever their payload values
+    (explicit defaults included) and whatever their payload types -/
+theorem swaps_payload_independent {ν ν' : Type} (e : Nat) (radix : Option Nat) (lat : Lat)
+    (depth : Nat) (t : Tree Int ν (e + 2 + depth)) (t' : Tree Int ν' (e + 2 + depth))
+    (hs : skel (e + 2 + depth) t = skel (e + 2 + depth) t') :
+    numSwapsTree e radix lat depth t = numSwapsTree e radix lat depth t' := by
+  rw [numSwapsTree_skel e radix lat depth t, numSwapsTree_skel e radix lat depth t', hs]
 
 /-- the executable specifications the driver evaluates on the implementation's result
     (`swapsSpecFin`: closed-form rounds on the skeleton; `swapsSpecInf`: insertion-buffer
-    rounds on the skeleton) are what the model computes — under the same proviso -/
-theorem swaps_finite_skeleton_partial (dflt : Int) (e : Nat) (radix : Option Nat) (hr : RadixOk radix)
-    (lat depth : Nat) (t : Tree Int Int (e + 2 + depth)) (h : presentAgrees dflt e depth t = true) :
-    numSwapsTree dflt e radix (Lat.fin lat) depth t = swapsSpecFin e radix lat depth (skel (e + 2 + depth) t) := by
-  rw [swaps_finite dflt e radix hr lat depth t, mergeNodes_skel dflt e depth t h, swapsSpecFin]
+    rounds on the skeleton) are what the model computes -/
+theorem swaps_finite_skeleton {ν : Type} (e : Nat) (radix : Option Nat) (hr : RadixOk radix)
+    (lat depth : Nat) (t : Tree Int ν (e + 2 + depth)) :
+    numSwapsTree e radix (Lat.fin lat) depth t = swapsSpecFin e radix lat depth (skel (e + 2 + depth) t) := by
+  rw [swaps_finite e radix hr lat depth t, mergeNodes_skel e depth t, swapsSpecFin]
 
-theorem swaps_infinite_skeleton_partial (dflt : Int) (e : Nat) (radix : Option Nat) (hr : RadixOk radix)
-    (depth : Nat) (t : Tree Int Int (e + 2 + depth)) (hwf : wfB (e + 2 + depth) t = true)
-    (h : presentAgrees dflt e depth t = true) :
-    numSwapsTree dflt e radix Lat.inf depth t = swapsSpecInf e radix depth (skel (e + 2 + depth) t) := by
-  rw [swaps_infinite dflt e radix hr depth t hwf, mergeNodes_skel dflt e depth t h, swapsSpecInf]
+theorem swaps_infinite_skeleton (e : Nat) (radix : Option Nat) (hr : RadixOk radix)
+    (depth : Nat) (t : Tree Int Int (e + 2 + depth)) (hwf : wfB (e + 2 + depth) t = true) :
+    numSwapsTree e radix Lat.inf depth t = swapsSpecInf e radix depth (skel (e + 2 + depth) t) := by
+  rw [swaps_infinite e radix hr depth t hwf, mergeNodes_skel e depth t, swapsSpecInf]
 
 /-- ranks M, K: M0 ↦ {1: v}, M1 ↦ {2: 5, 3: 5} -/
 def witTree (v : Int) : Tree Int Int 2 :=
   show List (Int × List (Int × Int)) from [(0, [(1, v)]), (1, [(2, 5), (3, 5)])]
 
-/-- **The unrestricted claim fails for the code as it is (DESIGN §7 #13)**: the same coordinates
-    with payload 0 instead of 7 at one leaf change the count from 5 to 0. -/
-theorem swaps_payload_counterexample :
+/-- the former counterexample (DESIGN §7 #13, repaired): payload 0 or 7 at one leaf, 5 swaps
+    either way (before the repair: 0 and 5) -/
+example :
     skel 2 (witTree 0) = skel 2 (witTree 7) ∧
-    numSwapsTree 0 0 (some 2) (Lat.fin 1) 0 (witTree 7) = 5 ∧
-    numSwapsTree 0 0 (some 2) (Lat.fin 1) 0 (witTree 0) = 0 := by
+    numSwapsTree 0 (some 2) (Lat.fin 1) 0 (witTree 7) = 5 ∧
+    numSwapsTree 0 (some 2) (Lat.fin 1) 0 (witTree 0) = 5 := by
   have h1 : roundsCost (some 2) 1 3 1 = 0 := roundsCost_small _ _ _ _ (by omega)
   have h2 : roundsCost (some 2) 1 3 2 = 5 := by
     rw [roundsCost_eq]; simp [clampRadix, ceilDiv, h1]
-  have m7 : mergeNodes 0 0 0 (witTree 7) = [[[1], [2, 3]]] := by decide
-  have m0 : mergeNodes 0 0 0 (witTree 0) = [[[2, 3]]] := by decide
+  have m7 : mergeNodes 0 0 (witTree 7) = [[[1], [2, 3]]] := by decide
+  have m0 : mergeNodes 0 0 (witTree 0) = [[[1], [2, 3]]] := by decide
   refine ⟨rfl, ?_, ?_⟩
-  · rw [swaps_finite 0 0 (some 2) (by simp [RadixOk]) 1 0 (witTree 7), m7]
+  · rw [swaps_finite 0 (some 2) (by simp [RadixOk]) 1 0 (witTree 7), m7]
     simp [total, h2]
-  · rw [swaps_finite 0 0 (some 2) (by simp [RadixOk]) 1 0 (witTree 0), m0]
-    simp [total, roundsCost_small]
+  · rw [swaps_finite 0 (some 2) (by simp [RadixOk]) 1 0 (witTree 0), m0]
+    simp [total, h2]
 
 /-- non-vacuity: three lists, radix 2: two rounds, 3·(3+8) + 3·(2+8) (test_num_swaps_finite_radix) -/
 example : RadixOk (some 2) ∧ roundsCost (some 2) 3 8 3 = 63 := by
@@ -276,10 +265,6 @@ example : RadixOk (some 2) ∧ roundsCost (some 2) 3 8 3 = 63 := by
   have h2 : roundsCost (some 2) 3 8 2 = 30 := by
     rw [roundsCost_eq]; simp [clampRadix, ceilDiv, h1]
   rw [roundsCost_eq]; simp [clampRadix, ceilDiv, h2]
-
-example : presentAgrees 0 0 0 (witTree 7) = true ∧ noDefaultLeaf 0 2 (witTree 7) = true ∧
-    presentAgrees 0 0 0 (witTree 0) = false := by
-  refine ⟨?_, ?_, ?_⟩ <;> decide
 
 /-- non-vacuity (test_num_swaps_undefined_next): three lists in one merge, 15 comparisons -/
 example : (insertMerge [[1, 3, 5], [0, 2, 3], [1, 4]]).1 = 15 := by decide
